@@ -556,3 +556,29 @@ Proof.
   assert ((nvec =? nobj)%N = false) as -> by lia.
   rewrite andb_false_r. reflexivity.
 Qed.
+
+(* ---------------------------------------------------------------- Head *)
+
+Lemma head_scope_spec limit : forall batches count, (count < limit)%nat ->
+  snd (head_scope limit count batches) = O /\
+  nsum (fst (head_scope limit count batches)) = Nat.min (limit - count) (nsum batches).
+Proof.
+  induction batches as [|n r IH]; intros count Hc; simpl.
+  - destruct (Nat.leb_spec limit count); [lia|]. simpl. split; [reflexivity | lia].
+  - destruct (Nat.leb_spec limit count); [lia|].
+    destruct (Nat.ltb_spec n (limit - count)).
+    + destruct (IH (count + n)%nat ltac:(lia)) as [H1 H2].
+      destruct (head_scope limit (count + n) r) as [o c]. simpl in *. split; [exact H1 | lia].
+    + simpl. split; [reflexivity | lia].
+Qed.
+
+(* `over ... => (head N)`: every scope yields its first min(N, length) values,
+   whatever the lengths of the earlier scopes (the count never leaks) *)
+Theorem head_scopes_spec : forall limit scopes, (0 < limit)%nat ->
+  map nsum (head_scopes limit O scopes) = map (fun s => Nat.min limit (nsum s)) scopes.
+Proof.
+  intros limit scopes Hl. induction scopes as [|s r IH]; simpl; [reflexivity|].
+  destruct (head_scope_spec limit s O Hl) as [H1 H2].
+  destruct (head_scope limit O s) as [o c]. simpl in *. subst c.
+  rewrite IH. f_equal. rewrite H2. f_equal. lia.
+Qed.
